@@ -9,6 +9,35 @@
 #include "TFEL/Math/stensor.hxx"
 #include "TFEL/Math/st2tost2.hxx"
 #include "TFEL/Material/ModellingHypothesis.hxx"
+#include "TFEL/Config/TFELTypes.hxx"
+
+// Lame.hxx declares, in every ComputeElasticStiffnessBase<N,T>, one overload for quantities
+// (tfel::config::Types<N,T,true>) and one for plain scalars (Types<N,T,false>). The generic
+// Types<N,T,*> cannot be instantiated for a non-arithmetic scalar (qt<Unit,T> requires
+// std::is_arithmetic_v<T>), so the alias table is specialised here for T = verif::Sym:
+// pure type aliases, no arithmetic. The quantity overloads get distinct dummy types and are
+// never called; the plain overloads (the code that is traced) see st2tost2<N,Sym> and Sym.
+namespace verif {
+  template <unsigned short N>
+  struct UnusedQuantityStiffnessTensor {};
+  struct UnusedQuantityStress {};
+}  // namespace verif
+namespace tfel::config {
+  template <unsigned short N>
+  struct Types<N, verif::Sym, false> : ScalarTypes<verif::Sym, false> {
+    using Stensor = tfel::math::stensor<N, verif::Sym>;
+    using StressStensor = tfel::math::stensor<N, verif::Sym>;
+    using StrainStensor = tfel::math::stensor<N, verif::Sym>;
+    using Stensor4 = tfel::math::st2tost2<N, verif::Sym>;
+    using StiffnessTensor = tfel::math::st2tost2<N, verif::Sym>;
+  };
+  template <unsigned short N>
+  struct Types<N, verif::Sym, true> {
+    using StiffnessTensor = verif::UnusedQuantityStiffnessTensor<N>;
+    using stress = verif::UnusedQuantityStress;
+  };
+}  // namespace tfel::config
+
 #include "TFEL/Material/Lame.hxx"
 #include "TFEL/Material/IsotropicModuli.hxx"
 #include "TFEL/Material/StiffnessTensor.hxx"
